@@ -273,7 +273,11 @@ class MutableAdapter:
             if bool(op["plain"]) != self.plain:
                 raise Skip("other family of variants")
             texts = [self.to_line(s) for s in op["lines"]]
-            data = file_bytes(texts, 1)
+            # the source file ends with a line break or not (alternating; an unterminated empty last line would not be a line)
+            w["news"] = getattr(self, "_news", 0)
+            self._news = w["news"] + 1
+            term = 0 if (texts and texts[-1] != "" and (len(texts) + sum(op["lines"])) % 2) else 1
+            data = file_bytes(texts, term)
             if not data and self.mmap:
                 raise Skip("the OS cannot memory-map an empty file")
             w["path"] = os.path.join(w["dir"], "src.txt")
